@@ -17,7 +17,8 @@ TOKEN_RULES = [n for n in sorted(vars(oal.OALParser)) if n.startswith('t_') and 
 _SH, _NSH = int(PARAMS.get('shard', 0)), int(PARAMS.get('nshards', 1))
 TOKEN_RULES = ['t_ID'] if PARAMS.get('only_id') else [r for r in TOKEN_RULES if r != 't_ID'][_SH::_NSH]
 NRULES = len(TOKEN_RULES)
-ILLEGAL = ['@', '$', chr(92), chr(0), chr(233), chr(0x2028), "'", '"', '%', '{', '!', '`', '~', '#']
+ILLEGAL = ['@', '$', chr(92), chr(0), chr(233), chr(0x2028), "'", '"', '%', '{', '!', '`', '~', '#',
+           chr(12), chr(11), chr(0xa0), chr(0x85), chr(0x2003), chr(0x1c)]     # characters str.split() regards as white space but the scanner does not
 NUMS = [1, 9, 10, 12345]   # numbers that only end up in messages are taken from a pool (formatting forks per digit)
 
 
@@ -155,14 +156,14 @@ def check_p_error(kind: int, ty: str, line: int, lexpos: int, text: str) -> bool
 
 def check_t_error(ci: int, rest: int, line: int, lexpos: int) -> bool:
     """
-    pre: 0 <= ci < len(ILLEGAL) and 0 <= rest <= 2 and 0 <= lexpos <= 3 and 0 <= line <= 3
+    pre: 0 <= ci < len(ILLEGAL) and 0 <= rest <= 4 and 0 <= lexpos <= 3 and 0 <= line <= 3
     post: POST(_)
     """
     # an illegal character is skipped: the scanner position advances, nothing is raised
     # (the character only ends up in a log message, which realises it: taken from a pool)
     global LAST_DIFF
     line = NUMS[cs(line, 0, 3)]; lexpos = NUMS[cs(lexpos, 0, 3)]
-    value = ILLEGAL[cs(ci, 0, len(ILLEGAL) - 1)] + 'x;'[:cs(rest, 0, 2)]
+    value = ILLEGAL[cs(ci, 0, len(ILLEGAL) - 1)] + ['', 'x', 'x;', ' ', chr(10) + ' '][cs(rest, 0, 4)]
     tok = lex.LexToken(); tok.type = 'error'; tok.value = value; tok.lineno = line; tok.lexpos = lexpos
     tok.lexer = _Lexer(); tok.lexer.lexpos = lexpos
     try:
